@@ -97,7 +97,29 @@ Theorem parse_print_chunk_partial : forall names r lens,
 Proof. exact parse_print_chunk_partial_lemma. Qed.
 Print Assumptions parse_print_chunk_partial.
 
+(** The strip-mining copy loop of copy_sds (objects of H4TOOLS_MALLOCSIZE bytes or more): the blocks it reads and
+    writes, taken in order and each in row-major order, are exactly the cells 0, 1, ..., N-1 of the array -- every
+    value is copied once, to its own place.  The loop's statements (strip size, hyperslab size, wrap test and carry
+    rule of the next-offset loop) are regenerated from hrepack_sds.c.
+    PARTIAL: a complete small scope (rank 1..3 with extents 1..4, rank 4 with extents 1..3, element size 1 or 2,
+    every buffer size from the element size to 16 bytes; the buffer size is a parameter of the model, 1 MiB in the
+    tool).  Missing for the general statement: the induction over the rank (the strip sizes are slab-shaped: full
+    extents below one cut dimension, 1 above it; the odometer then advances the linear position by the block size).
+    The real sizes are covered by the differential run on arrays of 1x, 2x, 3x the buffer. *)
+Theorem strips_partition_in_order_partial : forall dims eltsz buf,
+  In dims small_dims -> In eltsz [1; 2] -> In buf small_bufs -> eltsz <= buf ->
+  strip_order dims eltsz buf = Some (zcount 0 (Z.to_nat (zprod dims))).
+Proof. exact strips_partition_small_lemma. Qed.
+Print Assumptions strips_partition_in_order_partial.
+
 (** Non-vacuity: concrete, non-trivial states meeting the hypotheses. *)
+Example strip_walk_runs :
+  strips [2; 3] 2 4 = Some [([0; 0], [1; 2]); ([0; 2], [1; 1]); ([1; 0], [1; 2]); ([1; 2], [1; 1])] /\
+  strip_order [2; 3] 2 4 = Some [0; 1; 2; 3; 4; 5] /\
+  strip_mined 3600000 HDF_NONE COMP_CODE_NONE = true /\ strip_mined 3600000 HDF_NONE COMP_CODE_DEFLATE = false /\
+  strip_mined 1048575 HDF_CHUNK COMP_CODE_NONE = false.
+Proof. vm_compute. repeat split; reflexivity. Qed.
+
 Definition ex_names : list str := [[103; 49; 47; 65]; [90]].          (* "g1/A", "Z" *)
 Definition ex_entries : list entry :=
   [ET {| ce_names := ex_names; ce_type := COMP_CODE_DEFLATE; ce_info := 6 |};
